@@ -201,7 +201,6 @@ func (E *Engine) noteTrivial(fn string, cl *Clause) {
 // ---------------- modular use of a contract at a call site ----------------
 
 func (E *Engine) applyContract(m *Machine, f *Frame, x *ssa.Call, fn *ssa.Function, c *Contract, args []Val) Val {
-	name := FuncName(fn)
 	names := map[string]Val{}
 	for i, p := range fn.Params {
 		names[p.Name()] = args[i]
@@ -214,7 +213,40 @@ func (E *Engine) applyContract(m *Machine, f *Frame, x *ssa.Call, fn *ssa.Functi
 		ev.Lets[ld.Name] = ev.Eval(ld.Expr)
 	}
 	site := m.siteName(f, fn.Name())
+	E.checkRequires(m, ev, c, site, false)
+	return E.applyContractRest(m, f, x, fn, c, args, names, ev)
+}
+
+// checkDemands discharges, at the call site of an INLINED function, the call-site demands its contract states.
+func (E *Engine) checkDemands(m *Machine, f *Frame, fn *ssa.Function, c *Contract, args []Val) {
+	has := false
 	for _, rq := range c.Requires {
+		if rq.CallSiteOnly {
+			has = true
+		}
+	}
+	if !has {
+		return
+	}
+	names := map[string]Val{}
+	for i, p := range fn.Params {
+		names[p.Name()] = args[i]
+	}
+	ev := &Evaluator{E: E, M: m, Names: names, Old: &Snapshot{G: copyG(m.G), Heap: copyHeap(m.Heap)}}
+	for _, ld := range c.Lets {
+		if ev.Lets == nil {
+			ev.Lets = map[string]Val{}
+		}
+		ev.Lets[ld.Name] = ev.Eval(ld.Expr)
+	}
+	E.checkRequires(m, ev, c, m.siteName(f, fn.Name()), true)
+}
+
+func (E *Engine) checkRequires(m *Machine, ev *Evaluator, c *Contract, site string, demandsOnly bool) {
+	for _, rq := range c.Requires {
+		if demandsOnly && !rq.CallSiteOnly {
+			continue
+		}
 		g := ev.EvalBool(rq.Expr, rq.Src)
 		if g.S == "true" {
 			continue
@@ -234,6 +266,10 @@ func (E *Engine) applyContract(m *Machine, f *Frame, x *ssa.Call, fn *ssa.Functi
 		}
 		m.AssumeT(g)
 	}
+}
+
+func (E *Engine) applyContractRest(m *Machine, f *Frame, x *ssa.Call, fn *ssa.Function, c *Contract, args []Val, names map[string]Val, ev *Evaluator) Val {
+	name := FuncName(fn)
 	old := &Snapshot{G: copyG(m.G), Heap: copyHeap(m.Heap)}
 	// havoc the frame
 	for _, mod := range c.Modifies {
